@@ -16,6 +16,8 @@ package flowcontrol
 
 import (
 	"fmt"
+	"sync"
+
 	"github.com/zoumo/golib/lock/maxinflight"
 	"k8s.io/client-go/util/flowcontrol"
 
@@ -138,6 +140,11 @@ func (f *flowControl) MaxInflight() int32 {
 }
 
 type resizeableTokenBucket struct {
+	// mu serialises TryAcquire and Resize. The rate limiter reads the clock before it takes its own
+	// lock and keeps the timestamp it is given as the bucket's clock, so a caller that is overtaken
+	// between the two moves the bucket's clock back and the same stretch of time is refilled twice.
+	// Under mu every timestamp is read after the previous call has finished.
+	mu          sync.Mutex
 	rateLimiter flowcontrol.RateLimiter
 	name        string
 	typ         proxyv1alpha1.FlowControlSchemaType
@@ -150,6 +157,8 @@ func (f *resizeableTokenBucket) Type() proxyv1alpha1.FlowControlSchemaType {
 }
 
 func (f *resizeableTokenBucket) TryAcquire() bool {
+	f.mu.Lock()
+	defer f.mu.Unlock()
 	return f.rateLimiter.TryAccept()
 }
 
@@ -158,6 +167,8 @@ func (f *resizeableTokenBucket) String() string {
 }
 
 func (f *resizeableTokenBucket) Resize(n uint32, burst uint32) bool {
+	f.mu.Lock()
+	defer f.mu.Unlock()
 	resized := false
 	if f.qps != n || f.burst != burst {
 		f.rateLimiter = flowcontrol.NewTokenBucketRateLimiter(float32(n), int(burst))
